@@ -245,6 +245,11 @@ def ops():
     add("UQ.SE3", ["UQ"], lambda X: X[0].SE3())
     add("UQ.rpy", ["UQ"], lambda X: X.rpy())
     add("UQ.interp", ["UQ", "UQ"], lambda X, Y: X[0].interp(0.4, Y[0]))
+    add("UQ.interp/shortest", ["UQ", "UQ"], lambda X, Y: X[0].interp(0.4, Y[0], shortest=True))
+    add("UQ.interp/shortest/nodest", ["UQ"], lambda X: X[0].interp(0.7, shortest=True))
+    add("b.slerp(q4,q4,s,shortest)", ["q4", "q4"], lambda p, q: b.slerp(b.unit(p), -b.unit(q), 0.3, shortest=True))
+    add("b.slerp(u4,u4)", ["UQ", "UQ"], lambda X, Y: b.slerp(X[0].vec, Y[0].vec, 0.3, shortest=True))
+    add("UQ.angle", ["UQ", "UQ"], lambda X, Y: X[0].angle(Y[0]))
     add("UQ.dot", ["UQ", "v3"], lambda X, v: X[0].dot(v))
     add("UQ(SO3)", ["SO3"], lambda X: L.UnitQuaternion(X))
     add("Q.unit", ["Q"], lambda X: X.unit())
@@ -356,7 +361,8 @@ def initial_pool(seeds):
     pool["SO2"] = [L.SO2(T2[0][:2, :2].copy()), L.SO2([M[:2, :2].copy() for M in T2])]
     pool["SE2"] = [L.SE2(T2[0].copy()), L.SE2([M.copy() for M in T2])]
     qs = [refs.q_of(s["rot"]) for s in seeds["p3"]]
-    pool["UQ"] = [L.UnitQuaternion(qs[0].copy()), L.UnitQuaternion([q.copy() for q in qs])]
+    pool["UQ"] = [L.UnitQuaternion(qs[0].copy()), L.UnitQuaternion([q.copy() for q in qs]),
+                  L.UnitQuaternion([float(-x) for x in qs[0]]), L.UnitQuaternion([-qs[1], qs[2], -qs[0]])]   # both halves of the double cover
     pool["Q"] = [L.Quaternion(pool["q4"][0].copy()), L.Quaternion([q.copy() for q in pool["q4"]])]
     tw = [np.r_[arr(s["t"]), refs.unit(s["rot"]["axis"]) * min(s["rot"]["angle"], 3.0)] for s in seeds["p3"]]
     pool["Tw3"] = [L.Twist3(tw[0].copy()), L.Twist3([t.copy() for t in tw])]
